@@ -107,7 +107,8 @@ def sibling(rng, cfg):
         i = rng.randrange(n)
         k = rng.randrange(1, len(c["hands"][i]) + 1)
         hi = rng.sample(range(len(c["hands"][i])), k)
-        bi = rng.sample(range(5), min(k, 5))
+        m = min(5, len(c["deck"]))          # small-scope configurations may come with a very short deck
+        bi = rng.sample(range(m), min(k, m))
         for a, b in zip(hi, bi):
             c["hands"][i][a], c["deck"][b] = c["deck"][b], c["hands"][i][a]
     elif kind == 1:    # same hands, another board
